@@ -634,7 +634,9 @@ class Share:
         if self._overrun_ok:
             # easy! this includes version number, sizes, and offsets
             want_it.add(0, 1024)
-            return
+            # but the version number and the offset table are also needed for
+            # real: a share too short to hold them must be abandoned
+            # (DataUnavailable), not asked for the same bytes forever
 
         # v1 has an offset table that lives [0x0,0x24). v2 lives [0x0,0x44).
         # To be conservative, only request the data that we know lives there,
